@@ -8,11 +8,14 @@ import (
 	"encoding/hex"
 	"fmt"
 	"math/big"
+	"reflect"
+	"sort"
 	"strings"
 
 	"github.com/vipnode/vipnode/v2/ethnode"
 	"github.com/vipnode/vipnode/v2/internal/verif/vh"
 	"github.com/vipnode/vipnode/v2/internal/verif/vsched"
+	"github.com/vipnode/vipnode/v2/jsonrpc2"
 	"github.com/vipnode/vipnode/v2/pool"
 )
 
@@ -504,6 +507,94 @@ func c04WalletEncodings() vh.Unit {
 	}}
 }
 
+// The whole RPC surface of a pool wired like the binary (names read from the server's registry,
+// plus every method of the registered objects - promoted ones included - under both prefixes):
+// nothing that carries no valid signature changes anything, whatever the arguments.
+func c04RPCSurface() vh.Unit {
+	return vh.Unit{Name: "rpc-surface/unsigned-calls-change-nothing", Run: func(u *vh.U) {
+		cast := vh.StdCast()
+		vsched.ResetClock(0)
+		pw := vh.NewPoolWorld(vh.PoolConfig{Driver: vh.Memory})
+		for _, e := range c06Session {
+			vh.PoolEvent(pw, cast, e)
+		}
+		srv := &jsonrpc2.Server{}
+		if err := vh.RegisterProd(srv, pw); err != nil {
+			panic(err)
+		}
+		names := map[string]bool{}
+		for _, n := range vh.RegisteredMethods(srv) {
+			names[n] = true
+		}
+		registered := len(names)
+		if registered == 0 {
+			u.Violate("c04/rpc-surface/registry-not-readable", "the server's method registry could not be enumerated", nil)
+			return
+		}
+		for _, recv := range []interface{}{pw.Pool, pw.Payment} {
+			t := reflect.TypeOf(recv)
+			for i := 0; i < t.NumMethod(); i++ {
+				m := t.Method(i).Name
+				for _, prefix := range []string{"pool_", "vipnode_"} {
+					names[prefix+strings.ToLower(m[:1])+m[1:]] = true
+				}
+			}
+		}
+		var sorted []string
+		for n := range names {
+			sorted = append(sorted, n)
+		}
+		sort.Strings(sorted)
+		now := vsched.Now().UnixNano()
+		w1, c1, h1 := cast.ByName["W1"], cast.ByName["C1"], cast.ByName["H1"]
+		values := []string{`"` + w1.Wallet + `"`, `"` + c1.NodeID + `"`, `"` + h1.NodeID + `"`, `"` + cast.ByName["C2"].NodeID + `"`, `""`, `5`, fmt.Sprint(now + 1000), `{}`}
+		var tuples [][]string
+		var gen func(prefix []string, left int)
+		gen = func(prefix []string, left int) {
+			tuples = append(tuples, append([]string{}, prefix...))
+			if left == 0 {
+				return
+			}
+			for _, v := range values {
+				gen(append(prefix, v), left-1)
+			}
+		}
+		gen(nil, 3)
+		for _, sig := range []string{`""`, `"` + c1.SignNode("vipnode_ping", 1) + `"`} {
+			for _, id := range values[:4] {
+				for _, x := range values {
+					tuples = append(tuples, []string{sig, id, fmt.Sprint(now + 1000), x})
+				}
+			}
+		}
+		pw.Host("stranger")
+		before := poolDigest(pw, cast)
+		for _, method := range sorted {
+			for _, args := range tuples {
+				msg, err := vh.ParseMessage(fmt.Sprintf(`{"jsonrpc":"2.0","id":1,"method":%q,"params":[%s]}`, method, strings.Join(args, ",")))
+				if err != nil {
+					panic(err)
+				}
+				p := vh.Recover(func() { srv.Handle(vh.CtxWith(pw.Host("stranger").Service()), msg) })
+				u.R.Evaluations++
+				u.R.States++
+				u.R.Transitions++
+				u.R.Traces++
+				if p != "" {
+					u.Violate("c04/rpc-surface/panic/"+method, fmt.Sprintf("%s(%s): %s", method, strings.Join(args, ","), p), nil)
+					return
+				}
+				if after := poolDigest(pw, cast); after != before {
+					u.Violate("c04/rpc-surface/unsigned-call-changed-state/"+method, fmt.Sprintf("%s(%s), which carries no valid signature, changed the pool:\n before %s\n after  %s", method, strings.Join(args, ","), before, after), nil)
+					return
+				}
+			}
+		}
+		u.Observe(fmt.Sprintf("registered=%d candidates=%d", registered, len(sorted)))
+		u.Sample(fmt.Sprintf("%d registered + %d derived method names x %d unsigned argument tuples: pool digest unchanged", registered, len(sorted)-registered, len(tuples)))
+	}}
+}
+
 func init() {
 	vh.Register(&vh.Check{
 		ID: "C04", Level: "model_checking",
@@ -519,7 +610,7 @@ func init() {
 			for _, e := range vh.SignedEndpoints {
 				us = append(us, c04Unit(e))
 			}
-			us = append(us, c04Legacy(), c04ValidShapes(), c04WalletEncodings())
+			us = append(us, c04Legacy(), c04ValidShapes(), c04WalletEncodings(), c04RPCSurface())
 			b := 2
 			if tier == "thorough" {
 				b = 3
